@@ -378,7 +378,6 @@ func VH_C06_ccw_Q() {
 	if closed {
 		vAssert("C06.ccw.closed_triangle", ccw == (area2 > 0))
 	} else {
-		vKnown("D30", startBR)
 		vAssert("C06.ccw.open_triangle", ccw == (area2 > 0))
 	}
 }
